@@ -104,6 +104,103 @@ def _decision_queues_max_data(ctx, body, site):
     return found, ok
 
 
+def _strip_some(d):
+    """peel `(x as Some).0` payload projections"""
+    while isinstance(d, tuple) and d[0] == 'field' and d[2] == '0' and d[1][0] == 'variant' and d[1][2] == 'Some':
+        d = d[1][1]
+    return d
+
+
+def _flat_all(d):
+    """phi alternatives, flattened recursively"""
+    if isinstance(d, tuple) and d and d[0] == 'phi':
+        out = []
+        for x in d[1]:
+            out.extend(_flat_all(x))
+        return out
+    return [d]
+
+
+def _loop_keeps_minimum(ctx, fn):
+    """the explicit-loop spelling of `self.data.iter().filter_map(|&x| x).min()`:
+         acc = None; for slot in <whole self.data> { if let Some(e) = slot { if acc is None or e < acc { acc = Some(e) } } }; acc
+    decided on the direction of the comparison, not on names: ELEM is the payload of `Iterator::next` over the WHOLE table
+    (no skip/take/filter), ACC is the payload of the value the function returns; on every edge where ELEM < ACC / ELEM <= ACC
+    holds the accumulator is overwritten with Some(ELEM) before the next iteration, on every edge where ACC <= ELEM / ACC < ELEM
+    holds it is not, and every other way through the loop body (accumulator still None) stores Some(ELEM) unless the slot
+    itself is None.  A loop keeping the LARGER value has the two edge kinds swapped and is rejected."""
+    F = ctx.facts
+    R = {d for r, d in ret_descs(F, fn)}
+    if not R:
+        return False
+
+    def table_next(x):
+        if not (isinstance(x, tuple) and x[0] == 'call' and len(x[3]) == 1 and x[1].rsplit('::', 1)[-1] == 'next'):
+            return False
+        src = _peel_iter(x[3][0])
+        return src[0] == 'field' and src[2] == 'data' and src[1][0] == 'param'
+
+    def is_elem(d):
+        return isinstance(d, tuple) and d[0] == 'field' and not any(x[0] in ('phi', 'local') for x in walk(d)) and table_next(_strip_some(d))
+
+    def is_acc(d):
+        return isinstance(d, tuple) and d[0] == 'field' and d[2] == '0' and d[1][0] == 'variant' and d[1][2] == 'Some' and d[1][1] in R
+
+    def some_elem(v):
+        return isinstance(v, tuple) and v[0] == 'agg' and v[1] == 'adt' and v[2].endswith('Option::Some') and len(v[3]) == 1 and is_elem(v[3][0])
+
+    # the returned accumulator can hold Some(ELEM)
+    if not any(some_elem(x) for r in R for x in _flat_all(r)):
+        return False
+    d = describer(F, fn)
+    live = fn.live_blocks()
+    take = {i for i, j, pl, rv, line in fn.assigns() if i in live and rv[0] == 'agg' and some_elem(d.rvalue(rv, i, j, 0))}
+    take_e, keep_e, none_e, elems = [], set(), set(), set()
+    for br in branches(F, fn):
+        for truth in (True, False):
+            rel = relation_on(br.desc, truth)
+            if rel is None or rel[0] not in ('Lt', 'Le'):
+                continue
+            tgt = br.target(1 if truth else 0)
+            if is_elem(rel[1]) and is_acc(rel[2]):
+                take_e.append((br.bb, tgt))
+                elems.add(rel[1])
+            elif is_acc(rel[1]) and is_elem(rel[2]):
+                keep_e.add((br.bb, tgt))
+                elems.add(rel[2])
+    if not take or not take_e or not keep_e:
+        return False
+    nxt = {x[4] for e in elems for x in walk(e) if table_next(x)}
+    entries = []
+    for br in branches(F, fn):
+        if br.desc[0] != 'discr':
+            continue
+        x = br.desc[1]
+        if table_next(x) and x[4] in nxt:
+            entries.append(br.target(1))                       # loop body: the iterator yielded a slot
+        elif any(x in list(walk(e)) for e in elems) and table_next(_strip_some(x)):
+            none_e.add((br.bb, br.target(0)))                  # the slot itself is None: skipped
+    ends = nxt | set(fn.return_blocks())
+    if not entries or None in entries:
+        return False
+    for bb, tgt in take_e:
+        if tgt is None or any(x in fn.reachable_from([tgt], take) for x in ends):
+            return False
+    for bb, tgt in keep_e:
+        if tgt is None or any(x in fn.reachable_from([tgt], nxt) for x in take):
+            return False
+    r = fn.reachable_from(entries, take, keep_e | none_e)
+    return not any(x in r for x in ends)
+
+
+def _follows_write(F, body, w, pats, depth=0):
+    """must_follow for a store: a store made by a STATEMENT of block w.bb is also followed by `pats` when the terminator
+    of that same block is the required call (`x.f = v; self.pats()` compiled into one block)"""
+    if w.kind == 'assign' and w.bb in must_sites(F, body, pats, depth):
+        return None
+    return must_follow(F, body, w.bb, pats, depth)
+
+
 def rule_a(ctx):
     F = ctx.facts
     t = F.adt('timer::Timer')
@@ -130,7 +227,7 @@ def rule_a(ctx):
     ctx.check(bool(nx) and bool(ex) and all(any(contains_site(arg_desc(F, e, 1), c) for c in nx) for e in ex), 'a', 'handle_timeout_iterates_all_timers', ht, ht.where(), 'for &timer in &Timer::VALUES { is_expired(timer) .. }',
               'handle_timeout no longer examines every element of Timer::VALUES (the iterated range is not the whole table, or the timer tested is not the loop variable)')
     nt = ctx.pfn('TimerTable::next_timeout')
-    ctx.check(any(short(c.f).endswith('::min') for x in F.family(nt) for c in x.calls()), 'a', 'next_timeout_is_minimum', nt, nt.where(), 'min over the table', 'next_timeout no longer returns the minimum deadline')
+    ctx.check(any(short(c.f).endswith('::min') for x in F.family(nt) for c in x.calls()) or _loop_keeps_minimum(ctx, nt), 'a', 'next_timeout_is_minimum', nt, nt.where(), 'min over the table (Iterator::min, or a loop keeping the smaller deadline)', 'next_timeout no longer returns the minimum deadline')
 
 
 def rule_b(ctx):
@@ -155,7 +252,7 @@ def rule_b(ctx):
     lp = [w for w in field_writes(F, 'PacketSpace', 'loss_probes', crate='quinn_proto') if w.body.id == ol.id and w.kind in ('assign', 'callresult')]
     for w in lp:
         n += 1
-        ctx.check(must_follow(F, ol, w.bb, SL, 0) is None, 'b', 'rearm_in_pto_arm', ol, w.where(), 'PTO arm re-arms the timer', 'after scheduling loss probes the PTO timer is not re-armed')
+        ctx.check(_follows_write(F, ol, w, SL, 0) is None, 'b', 'rearm_in_pto_arm', ol, w.where(), 'PTO arm re-arms the timer', 'after scheduling loss probes the PTO timer is not re-armed')
     ft = ctx.pfn('PacketBuilder::finish_and_track')
     cs = ft.calls_to(*SL)
     # "in flight" = the value recorded as SentPacket.size at the PathData::sent call; on the edge where it is != 0 every
@@ -183,10 +280,17 @@ def rule_b(ctx):
         inner, t_yes, t_no = _bool_edges_of(br)
         if inner[0] == 'call' and (inner[1] == 'PathData::anti_amplification_blocked' or path_matches(inner[2], 'PathData::anti_amplification_blocked')):
             flag_br.append((br, inner, t_yes, t_no))
-    # crediting sites of this datagram: the direct store to PathData.total_recvd and the packet handlers
+    # crediting sites of this datagram: the direct store to PathData.total_recvd and the packet handlers.  A packet
+    # handler is any call site of handle_event that can reach Connection::handle_packet (which authenticates the packet
+    # and may validate the path): handle_decode / handle_coalesced today, or handle_packet itself when handle_decode's
+    # body (unprotect_header -> handle_packet) is written out in handle_event
     credit_st = [w for w in field_writes(F, 'PathData', 'total_recvd', crate='quinn_proto') if w.body.id == he.id and w.kind in ('assign', 'callresult')]
-    credit = {w.bb for w in credit_st} | {c.bb for c in he.calls_to('Connection::handle_decode', 'Connection::handle_coalesced')}
-    ctx.floor('b', 'datagram_credit_sites', len(credit_st) + len(he.calls_to('Connection::handle_decode')), 2)
+    hp = may_sites(F, he, ['Connection::handle_packet'], 3)
+    handlers = [c for c in he.calls() if c.bb in hp]
+    credit = {w.bb for w in credit_st} | {c.bb for c in handlers}
+    # what must exist: the store that credits the datagram and a handler for its first packet (the handler of the
+    # coalesced remainder is not counted)
+    ctx.floor('b', 'datagram_credit_sites', len(credit_st) + len([c for c in handlers if not c.is_('Connection::handle_coalesced')]), 2)
     # after the datagram is credited, every path to the return either re-arms or leaves over the "was not blocked" edge
     not_blocked = {(br.bb, t_no) for br, inner, t_yes, t_no in flag_br if t_no is not None and t_no != t_yes}
     ok = bool(cs) and bool(flag_br) and bool(credit_st) and all(not _escapes(he, [w.bb], avoid=slb, avoid_edges=not_blocked) for w in credit_st)
@@ -270,7 +374,12 @@ def rule_d(ctx):
 def rule_e(ctx):
     F = ctx.facts
     ws = ctx.pfn('SendStream::write_source')
-    es = guard_edges(ctx, ws, lambda o, a, b: o == 'Eq' and ((D.has_call(a, 'StreamsState::write_limit') and D.has_const(b, 0)) or (D.has_call(b, 'StreamsState::write_limit') and D.has_const(a, 0))))
+    # edges on which write_limit() == 0 holds; write_limit() is a u64, so `!(limit > 0)` / `limit <= 0` / `limit < 1`
+    # are the same predicate (relation_on normalises the negation and the operand order)
+    zero, one = ('const', 'int', '0', ''), ('const', 'int', '1', '')
+    WL = 'StreamsState::write_limit'
+    es = guard_edges(ctx, ws, lambda o, a, b: (o == 'Eq' and ((D.has_call(a, WL) and D.has_const(b, 0)) or (D.has_call(b, WL) and D.has_const(a, 0))))
+                     or (o == 'Le' and D.has_call(a, WL) and b == zero) or (o == 'Lt' and D.has_call(a, WL) and b == one))
     push = [c for c in ws.calls_to('Vec::push') if D.has_field(arg_desc(F, c, 0), 'connection_blocked')]
     ok = bool(es) and bool(push)
     for br, truth, tgt in es:
